@@ -32,7 +32,11 @@ def pVisitEdges (visit : PVisitFn) : List Obs → List Dep → List Dep × List 
     else pVisitEdges visit os vis
 
 def pVisit (M : Nat → Option Memo) : Nat → PVisitFn
-  | 0 => fun _ vis => (vis, [])
+  | 0 => fun d vis =>
+    if d ∈ vis then (vis, [])
+    else match d with
+      | .inp _ => (d :: vis, [])
+      | .qry _ => (vis, [])
   | r + 1 => fun d vis =>
     if d ∈ vis then (vis, [])
     else match d with
@@ -133,7 +137,12 @@ theorem accVisit_pure {P} (hP : Wf P) {s0 : State} (hI0 : Inv P s0) :
     ∀ r, VisitSpec P s0 (accVisit P r) (pVisit s0.memos r) := by
   intro r
   induction r with
-  | zero => intro s d vis hI hV _; exact ⟨hI, hV, rfl⟩
+  | zero =>
+    intro s d vis hI hV _
+    simp only [accVisit, pVisit]
+    split
+    · exact ⟨hI, hV, rfl⟩
+    · cases d <;> exact ⟨hI, hV, rfl⟩
   | succ r ih =>
     intro s d vis hI hV hsd
     simp only [accVisit, pVisit]
@@ -287,7 +296,12 @@ theorem pVisitEdges_mono {visit : PVisitFn}
 theorem pVisit_mono (M) : ∀ r d vi x, x ∈ vi → x ∈ (pVisit M r d vi).1 := by
   intro r
   induction r with
-  | zero => intro d vi x h; exact h
+  | zero =>
+    intro d vi x h
+    simp only [pVisit]
+    split
+    · exact h
+    · cases d <;> simp [h]
   | succ r ih =>
     intro d vi x h
     simp only [pVisit]
@@ -318,7 +332,7 @@ theorem refVisit_mem (P inp) {r k vr} (h : k ∈ vr) : refVisit P inp r k vr = (
 
 theorem pVisit_mem (M) {r d vi} (h : d ∈ vi) : pVisit M r d vi = (vi, []) := by
   cases r with
-  | zero => rfl
+  | zero => simp [pVisit, h]
   | succ r => simp [pVisit, h]
 
 theorem refVisit_lt (P inp) {r k} (vr) (h : k < r) : refVisit P inp (r + 1) k vr = refVisit P inp r k vr := by
@@ -335,7 +349,11 @@ theorem pVisit_lt (M) {r k} (vi) (h : k < r) : pVisit M (r + 1) (.qry k) vi = pV
 theorem pVisit_inp (M) (r i vi) : (pVisit M r (.inp i) vi).2 = [] ∧
     ∀ x, Dep.qry x ∈ (pVisit M r (.inp i) vi).1 ↔ Dep.qry x ∈ vi := by
   cases r with
-  | zero => exact ⟨rfl, fun _ => Iff.rfl⟩
+  | zero =>
+    simp only [pVisit]
+    split
+    · exact ⟨rfl, fun _ => Iff.rfl⟩
+    · exact ⟨rfl, fun x => by simp⟩
   | succ r =>
     simp only [pVisit]
     split
@@ -425,7 +443,10 @@ theorem pVisit_empty (hS : Snap P s0) : ∀ r k vi, sokDep s0 (.qry k) → Empty
     ∀ x, Dep.qry x ∈ (pVisit s0.memos r (.qry k) vi).1 → Dep.qry x ∈ vi ∨ Empty P s0.inp x := by
   intro r
   induction r with
-  | zero => intro k vi _ _; exact ⟨rfl, fun x h => Or.inl h⟩
+  | zero =>
+    intro k vi _ _
+    simp only [pVisit]
+    split <;> exact ⟨rfl, fun x h => Or.inl h⟩
   | succ r ih =>
     intro k vi hsk hE
     by_cases hm : Dep.qry k ∈ vi
@@ -576,7 +597,10 @@ theorem pVisitEdges_ref (r : Nat)
 theorem pVisit_ref (hS : Snap P s0) : ∀ r, VisitRel P s0 (pVisit s0.memos r) (refVisit P s0.inp r) := by
   intro r
   induction r with
-  | zero => intro k vi vr _ h; exact ⟨rfl, h⟩
+  | zero =>
+    intro k vi vr _ h
+    simp only [pVisit, refVisit]
+    split <;> exact ⟨rfl, h⟩
   | succ r ih =>
     intro k vi vr hsk h
     by_cases hlt : k < r
